@@ -173,7 +173,8 @@ PROFILES = {
             ("sinks-posted", dict(coalesce_sends=True, sends_per_txn=(1, 4), nest=0.9, samples=0.4, postsends=0.7, posts=0.2, max_defer=1,
                                   weights=W(ssinkc=7, csink=3, ssink=2, hold=3, merge=2, defer=1)))],
     "C17": [("lazies", dict(lazies=0.9, samples=0.3, n_txn=(4, 14), weights=W(mapc=4, lift2=3, liftn=1, holdlazy=3, hold=3, csink=4, accum=2, accumlazy=2, collectlazy=1, cloop=1, snaplazy=3, snapshot=2)))],
-    "C18": [("router", dict(n_defs=(4, 10), drops=0.3, gcs=0.3, drop_routers=0.3, rerequest=0.3, routelate=0.5, weights=W(router=5, route=4, ssink=4, map=3, merge=3, hold=1, accum=1.5, collect=1)))],
+    "C18": [("router", dict(n_defs=(4, 10), drops=0.3, gcs=0.3, drop_routers=0.3, rerequest=0.3, routelate=0.5, routehandler=0.6, max_defer=2,
+                            weights=W(router=5, route=4, ssink=4, map=3, merge=3, hold=1, accum=1.5, collect=1)))],
     "C06": [("drops", dict(drops=0.8, gcs=0.5, memchecks=0.5, n_defs=(5, 14), n_txn=(4, 12),
                            weights=W(sloop=1.5, cloop=1.5, accum=2, collect=2, switchs=1.5, switchc=1, router=1, defer=1, lift2=2, lift2d=1.5, snapshotn=1, hold=3, snapshot=3))),
             # handles dropped by a listener handler, while the node they keep is queued for update
